@@ -25,7 +25,7 @@ RULE = (
 ASSUMPTIONS = ["simulated schedulers (simbin) stand in for Slurm/SGE/LSF", "spec hashing off (covered by C18)"]
 
 
-QUICK_BUDGET = {"cases": 1260, "deadline_s": 170, "case_timeout_s": 90, "floors": {"runs": 633, "submissions": 1200, "prereq_sets": 1200, "user_cancels": 120}}
+QUICK_BUDGET = {"cases": 1260, "deadline_s": 170, "case_timeout_s": 90, "floors": {"runs": 633, "submissions": 1200, "prereq_sets": 1200, "user_cancels": 120, "wide_cases": 1}}
 THOROUGH_FACTOR = 15  # thorough = the same workload with 15x the cases (floors scale along)
 
 
@@ -35,7 +35,24 @@ def budget(tier):
     return scaled_budget(QUICK_BUDGET, tier, THOROUGH_FACTOR, noscale=())
 
 
+def wide_case(rng):
+    """more tracked jobs than one accounting query carries (1024): ~1040 independent, up-to-date targets whose jobs
+    completed - except a few around the batch boundary whose last job failed / was cancelled and which therefore
+    have to be submitted again (and only those)"""
+    n = rng.randint(1030, 1060)
+    targets = [{"name": "w%04d" % i, "ins": ["src0.txt"], "outs": ["wide/o%04d.dat" % i], "spec": "echo w%d\n" % i} for i in range(n)]
+    ticks = {"src0.txt": 0}
+    bstate = {}
+    bad = set(rng.sample(range(1019, 1030), 3)) | {1023, 1024, rng.randrange(n)}
+    for i, t in enumerate(targets):
+        ticks[t["outs"][0]] = 2
+        bstate[t["name"]] = rng.choice(["failed", "cancelled"]) if i in bad else "completed"
+    return {"lane": "direct", "sched": "slurm", "dag": {"targets": targets, "sources": ["src0.txt"], "shape": "wide"}, "ticks": ticks, "first_id": 1000, "bstate": bstate, "ghost": [], "patterns": [], "foreign": 0, "wide": True, "timeout_s": 600}
+
+
 def gen_case(rng, idx, tier):
+    if idx % 601 == 17:
+        return wide_case(rng)
     sched = rng.choices(["slurm", "sge", "lsf"], [6, 2, 2])[0]
     lane = "driven" if idx % 3 == 0 else "direct"
     if idx % 7 == 5:
@@ -197,6 +214,8 @@ def run_case(case):
             if tracked:
                 proj.write_state(scenario.tracked_file(sched), tracked)
             info = do_run(case, proj, sim, env, mts, deps, case["patterns"], res, "direct")
+            if case.get("wide"):
+                res.mon("wide_cases")
             if info:
                 res.sig = (gen.shape_class(deps), sorted(info["bview"].get(n, "unknown") for n in deps), bool(case["patterns"]), len(info["want"]), sched)
                 res.nontrivial = info["nstates"] >= 2 and multi and 0 < len(info["want"]) < len(deps)
